@@ -16,7 +16,7 @@ theorem pick_nil (l : List α) : pick l [] = [] := rfl
 
 theorem pick_cons_of_lt {l : List α} {p : Nat} (ps : List Nat) (h : p < l.length) :
     pick l (p :: ps) = l[p] :: pick l ps := by
-  simp [pick, List.filterMap_cons, List.getElem?_eq_getElem h]
+  simp [pick, List.getElem?_eq_getElem h]
 
 /-- Picking positions that exist loses nothing: the result lists, in order, the entries at
 those positions. -/
